@@ -322,9 +322,10 @@ def run_model_case(args):
     if worst is not None and fam in SIGNATURE:
         rel, k, ip, label, axis, angle, i0, ir = worst
         sig = SIGNATURE[fam]
-        if fam.startswith("multi_aligned") and not any(model.opposite_isobar):
-            # structurally different situation: every isobar is the helicity state of its node
-            sig = sig.replace("_aligned_", "_aligned_helicity_isobars_only_")
+        if fam.startswith("multi_") and not any(model.opposite_isobar):
+            # every isobar is the helicity state of its node: structurally different from models with an
+            # opposite-helicity isobar (unaligned spinless: invariant on the current tree)
+            sig = sig.replace("_not_invariant", "_helicity_isobars_only_not_invariant")
         case = make_case(name, topo, align, events[k], axis, angle, model, par_sets[ip])
         res["failures"].append({
             "signature": sig,
